@@ -25,6 +25,10 @@ SHIFTED = [(['a', 'b', 'c', 'd', 'e'], ['b', 'c', 'X', 'e']), ([1, 2, 3, 4, 5, 6
            ({'x': {'l': [1, 2, 3, 4]}, 'y': [{'m': ['p', 'q', 'r', 's']}], 'z': ['u', 'v', 'w', 'x']},
             {'x': {'l': [0, 1, 2, 3, 4, 5]}, 'y': [{'m': ['o', 'p', 'q', 'r', 's', 't']}], 'z': ['t', 'u', 'v', 'w', 'x', 'y']}),
            # text that is legal JSON but not encodable as it stands (an unpaired surrogate), in a changed leaf, an untouched leaf and a key
+           # leaves that change type where the patch can leave the new value out (it is what the new type makes of the old value)
+           ({'flag': 'no', 'l': ['x', 1], 'n': '3', 'e': ''}, {'flag': True, 'l': [True, 1], 'n': 3, 'e': False}), ({'a': 1, 'b': 0, 'c': 2.0}, {'a': True, 'b': False, 'c': 2}),
+           # texts made of the same lines with different line ends (the convenience line diff is empty, the values differ)
+           ({'t': 'a\nb', 'n': 1}, {'t': 'a\nb\n', 'n': 1}), ({'t': 'x\r\ny'}, {'t': 'x\ny'}), (['l1\nl2\n', 0], ['l1\nl2', 0]),
            ({'t': 'cut \ud83d', 'n': 1}, {'t': 'cut \ud83d', 'n': 2}), ({'t': 'a'}, {'t': 'b \udc00'}), ({'k\ud800': 1, 'n': [1]}, {'k\ud800': 1, 'n': [1, 2]})]
 
 
@@ -110,7 +114,7 @@ def run(ctx, impl_only=False):
             keys=['a', 'b', 'c', 'dd', 'k 1', 'é', "it's"], kinds=('dict', 'list'), max_depth=3, max_width=4)
     gp = Gen(ctx.rng, scalars=[None, True, 0, 1, 2, 1.5, 'a', 'b', ''], keys=['a', 'b', '__p', '__q r', 'old_value', 'new_type'], kinds=('dict', 'list'), max_depth=3, max_width=4)
     findings = {f['id']: f for f in core.load_findings(ID) if f.get('status') == 'open'}
-    n = 160 if ctx.thorough() else 24
+    n = 160 if ctx.thorough() else 36
     tmp = tempfile.mkdtemp(prefix='verif_c20_')
     lines, metas = [], []
     try:
